@@ -75,6 +75,7 @@ type Runner struct {
 	// height contradicts the block it names (one shot)
 	CorruptIndex  bool
 	deferred      []rec
+	window        []windowRead // what the listeners read from inside notifications since the last observation
 	lastRev       *chaingen.Node
 	minedFromPool map[*chaingen.Node]bool           // blocks mined from the pool by coreutils.MineBlock and adopted
 	elemNode      map[*chaingen.Node]*chaingen.Node // whose element accumulator the stored state of a block carries
@@ -92,6 +93,81 @@ func NewRunner(w *World, fail func(kind, detail string)) *Runner {
 	r := &Runner{W: w, Sim: s, CM: s.CM, Tip: w.T.Nodes[0], Start: w.T.Nodes[0], Known: map[*chaingen.Node]bool{w.T.Nodes[0]: true}, Applied: map[*chaingen.Node]bool{w.T.Nodes[0]: true},
 		Meta: map[types.TransactionID]Meta{}, minedFromPool: map[*chaingen.Node]bool{}, elemNode: map[*chaingen.Node]*chaingen.Node{w.T.Nodes[0]: w.T.Nodes[0]}, Fail: fail, Stats: map[string]int{}, MW: 2_000_000}
 	return r
+}
+
+// windowRead is what a listener read from inside a notification (the manager's lock is released
+// there, the call that notifies has not returned yet).
+type windowRead struct {
+	reorg  bool
+	tip    types.ChainIndex
+	v1, v2 [][]byte
+	fault  string
+}
+
+// Listen registers a reorg listener and a pool listener that read the pool (both lists, then every
+// listed transaction by id) from inside the notification. What they saw is compared with the first
+// reading after the call returns (observe): nothing happens in between, so the two must be equal.
+// While Quiet or DeferNext is set the listeners read nothing (those steps are about the absence of reads).
+func (r *Runner) Listen() {
+	cm := r.CM
+	read := func(reorg bool, told *types.ChainIndex) {
+		if r.Quiet || r.DeferNext {
+			return
+		}
+		wr := windowRead{reorg: reorg}
+		func() {
+			defer func() {
+				if p := recover(); p != nil {
+					wr.fault = fmt.Sprint("a pool method panicked inside the notification: ", p)
+				}
+			}()
+			wr.tip = cm.Tip()
+			if told != nil && *told != wr.tip {
+				wr.fault = fmt.Sprintf("the reorg listener was told tip %v, Tip() answers %v", *told, wr.tip)
+			}
+			v1, v2 := cm.PoolTransactions(), cm.V2PoolTransactions()
+			for _, t := range v1 {
+				wr.v1 = append(wr.v1, EncV1(t))
+				if x, ok := cm.PoolTransaction(t.ID()); !ok || x.ID() != t.ID() {
+					wr.fault = "inside the notification PoolTransaction does not find a transaction PoolTransactions lists"
+				}
+			}
+			for _, t := range v2 {
+				wr.v2 = append(wr.v2, EncV2(t))
+				if x, ok := cm.V2PoolTransaction(t.ID()); !ok || x.ID() != t.ID() {
+					wr.fault = "inside the notification V2PoolTransaction does not find a transaction V2PoolTransactions lists"
+				}
+			}
+		}()
+		r.window = append(r.window, wr)
+		r.Stats["reads-inside-notifications"]++
+	}
+	cm.OnReorg(func(idx types.ChainIndex) { read(true, &idx) })
+	cm.OnPoolChange(func() { read(false, nil) })
+}
+
+// checkWindow compares what the listeners saw during the last call with the reading made right after it.
+func (r *Runner) checkWindow(v1 []types.Transaction, v2 []types.V2Transaction) {
+	ws := r.window
+	r.window = nil
+	for _, wr := range ws {
+		kind := map[bool]string{true: "reorg", false: "pool-change"}[wr.reorg]
+		if wr.fault != "" {
+			r.Fail("pool-read-inside-notification", kind+" listener: "+wr.fault)
+			return
+		}
+		same := len(wr.v1) == len(v1) && len(wr.v2) == len(v2) && wr.tip == r.CM.Tip()
+		for i := 0; same && i < len(v1); i++ {
+			same = string(wr.v1[i]) == string(EncV1(v1[i]))
+		}
+		for i := 0; same && i < len(v2); i++ {
+			same = string(wr.v2[i]) == string(EncV2(v2[i]))
+		}
+		if !same {
+			r.Fail("pool-differs-inside-notification", fmt.Sprintf("the %s listener read %d v1 + %d v2 transactions at tip %v from inside the notification; right after the call returned the pool reports %d + %d at tip %v (contents, order or proofs differ): inside the notification the pool was not the valid continuation of the new tip that it is afterwards", kind, len(wr.v1), len(wr.v2), wr.tip, len(v1), len(v2), r.CM.Tip()))
+			return
+		}
+	}
 }
 
 // meta returns what is known about a transaction that is pooled or confirmed (so its
@@ -147,9 +223,11 @@ func (r *Runner) observe(rc *rec) {
 		c := *rc
 		c.NoObs = true
 		r.deferred = append(r.deferred, c)
+		r.window = nil
 		return
 	}
 	v1, v2 := r.Pool()
+	r.checkWindow(v1, v2)
 	for _, t := range v1 {
 		rc.ObsV1 = append(rc.ObsV1, t.ID())
 	}
@@ -756,5 +834,9 @@ func (r *Runner) CoqCase() string {
 	}
 	start := r.W.Info(r.Start)
 	gen := r.W.Info(r.W.T.Nodes[0])
-	return fmt.Sprintf("mk_case %d\n  [%s]\n  %s (%s) %s\n  [%s]", r.MW, strings.Join(us, ";\n   "), nm.CoqIndex(gen.Index), nm.CoqLedger(start), nm.CoqIndex(start.Index), strings.Join(tr, ";\n   "))
+	md := MaxDist
+	if !DistBounded {
+		md = 5000 // no limit was found: larger than any path of a case
+	}
+	return fmt.Sprintf("mk_case %d %d %d\n  [%s]\n  %s (%s) %s\n  [%s]", r.MW, r.MW*CapBlocks/10, md, strings.Join(us, ";\n   "), nm.CoqIndex(gen.Index), nm.CoqLedger(start), nm.CoqIndex(start.Index), strings.Join(tr, ";\n   "))
 }
